@@ -65,11 +65,12 @@ def srun (cfg : StackCfg) : SState → List SOp → Except SErr SState
       int rec (int d, int a0 .. a{n-1}) { if (d <= 0) return 0; return 1 + rec (d - 1, a0, .., a{n-1}); }
       int go () { int x; x = 7; return rec (depth, x, .., x); }
     `frames0` control frames are in use when go() is entered. -/
-def recLevel (nargs : Nat) : List SOp :=
-  [.enter 0, .pushU 1, .pushC 1, .pop 1, .pushU nargs]
+def recLevel (nargs nlocals : Nat) : List SOp :=
+  [.enter nlocals, .pushU 1, .pushC 1, .pop 1, .pushU nargs]
 
-def stackprogOps (depth nargs : Nat) : List SOp :=
-  [.enter 1, .pushC 1, .pushU nargs] ++ (List.replicate depth (recLevel nargs)).flatten ++ [.enter 0]
+/-- `nlocals` extra local variables per level (pushed by push_undefineds in the frame set-up: checked) -/
+def stackprogOps (depth nargs : Nat) (nlocals : Nat := 0) : List SOp :=
+  [.enter 1, .pushC 1, .pushU nargs] ++ (List.replicate depth (recLevel nargs nlocals)).flatten ++ [.enter nlocals]
 
 /-- every run of unchecked pushes between two checked operations pushes at most `slack` values -/
 def burstOk (slack : Nat) : Nat → List SOp → Bool
